@@ -22,6 +22,7 @@ pub mod c16;
 pub mod c17;
 pub mod c18;
 pub mod c19;
+pub mod c19_raw;
 pub mod c19_rogue;
 pub mod c20;
 pub mod c20_nodes;
